@@ -73,6 +73,9 @@ var apiTexts = map[string]string{
 	"patchBig":      `[{"op":"add","path":"/n","value":{"big":12345678901234567890123,"e":1e400,"f":1.0}},{"op":"move","from":"/n","path":"/m"},{"op":"test","path":"/m/f","value":1.0}]`,
 	"patchCopyFail": `[{"op":"copy","from":"/a/b","path":"/c1"},{"op":"test","path":"/k","value":"no"}]`,
 	"patchCopyBig":  `[{"op":"copy","from":"/a","path":"/c1"},{"op":"copy","from":"/a","path":"/c2"},{"op":"copy","from":"/a","path":"/c3"}]`,
+	"patchMoveFail": `[{"op":"remove","path":"/nope"},{"op":"move","from":"/a/b","path":"/missing/b"}]`,
+	"patchRmAbsent": `[{"op":"remove","path":"/nope"},{"op":"remove","path":"/a/nope/x"},{"op":"add","path":"/w","value":1},{"op":"remove","path":"/w"}]`,
+	"patchBigVal":   `[{"op":"add","path":"/bigv","value":{"member00":1,"list":[],"pad":"` + strings.Repeat("v", 1100) + `"}},{"op":"add","path":"/bigl","value":[` + strings.Repeat("1,", 600) + `1]},{"op":"add","path":"/bigv/extra","value":1},{"op":"add","path":"/bigv/list/-","value":"end"},{"op":"add","path":"/bigl/-","value":2},{"op":"remove","path":"/bigv/member00"}]`,
 	"patchBad":      `[{"op":"add","path":"/w","value":1},`,
 	"patchInv":      `[{"op":"add","path":"/w"}]`,
 	"patchObj":      `{}`,
@@ -106,6 +109,7 @@ func newAPIWorld() *apiWorld {
 	w.decodePatches()
 	w.sharedOpt = v5.NewApplyOptions()
 	w.sharedOpt.AccumulatedCopySizeLimit = 40
+	w.sharedOpt.AllowMissingPathOnRemove = true
 	w.optSnap = *w.sharedOpt
 	w.sharedOptS = v5.NewApplyOptions()
 	w.sharedOptS.AccumulatedCopySizeLimit = 12
@@ -222,6 +226,15 @@ func newAPIWorld() *apiWorld {
 		{"PcopyBig.ApplyIndentWithOptions(docObj, SHARED opts) [stopped by the limit]", true, func(w *apiWorld) ([]byte, error) {
 			return w.patches["patchCopyBig"].ApplyIndentWithOptions(B("docObj"), " ", w.sharedOpt)
 		}},
+		{"PmoveFail.ApplyWithOptions(docObj, SHARED opts) [skipped remove, then a move whose destination parent is missing]", true, func(w *apiWorld) ([]byte, error) {
+			return w.patches["patchMoveFail"].ApplyWithOptions(B("docObj"), w.sharedOpt)
+		}},
+		{"PrmAbsent.ApplyWithOptions(docObj, SHARED opts) [removes of absent targets are skipped]", true, func(w *apiWorld) ([]byte, error) {
+			return w.patches["patchRmAbsent"].ApplyWithOptions(B("docObj"), w.sharedOpt)
+		}},
+		{"PbigVal.Apply(docObj) [values beyond 1 KiB that later operations walk into]", true, func(w *apiWorld) ([]byte, error) {
+			return w.patches["patchBigVal"].Apply(B("docObj"))
+		}},
 		// rejected inputs with very many open containers (the scanner keeps / drops its stack)
 		{"Equal(deepOpen,docObj) [2000 unclosed brackets]", true, func(w *apiWorld) ([]byte, error) { return boolBytes(v5.Equal(B("deepOpen"), B("docObj"))), nil }},
 		{"P.Apply(deepOver) [nesting 10001]", true, func(w *apiWorld) ([]byte, error) { return w.patches["patchOK"].Apply(B("deepOver")) }},
@@ -326,7 +339,7 @@ func decodeOnly(b []byte) ([]byte, error) {
 }
 
 func (w *apiWorld) decodePatches() {
-	for _, k := range []string{"patchOK", "patchArr", "patchTst", "patchNeg", "patchCopyFail", "patchCopyBig", "patchBig", "patchDeep", "patchWide", "patchS", "patchTstS", "rootPatchS"} {
+	for _, k := range []string{"patchOK", "patchArr", "patchTst", "patchNeg", "patchCopyFail", "patchCopyBig", "patchBig", "patchDeep", "patchWide", "patchS", "patchTstS", "rootPatchS", "patchMoveFail", "patchRmAbsent", "patchBigVal"} {
 		p, err := v5.DecodePatch([]byte(apiTexts[k])) // from a private copy: the Patch must not alias a shared buffer
 		if err != nil {
 			panic("harness patch " + k + ": " + err.Error())
@@ -346,7 +359,14 @@ func (w *apiWorld) decodePatches() {
 			}
 		})
 	}
-	lp, err := v4.DecodePatch([]byte(apiTexts["patchOK"]))
+	// the legacy Patch: patchOK followed by the operations of patchBigVal (values beyond 1 KiB that later operations walk into)
+	// (its test compares a number: the legacy test compares string spellings, so strings with < are outside C18's domain
+	// and a patch testing one would fail on every call, leaving the history with nothing to observe)
+	ltext := strings.Replace(apiTexts["patchOK"], `{"op":"test","path":"/cp","value":{ "c" : "<x>" }}`, `{"op":"test","path":"/k","value":1.0}`, 1)
+	if ltext == apiTexts["patchOK"] {
+		panic("harness: legacy patch text not adapted")
+	}
+	lp, err := v4.DecodePatch([]byte(strings.TrimSuffix(ltext, "]") + "," + strings.TrimPrefix(apiTexts["patchBigVal"], "[")))
 	if err != nil {
 		panic(err)
 	}
